@@ -785,50 +785,8 @@ func ruleSumDBConstants(w *World, r *Run) {
 	}
 	// ---- C18.a / C18.c on the composition ReadTiles ∘ client, by URL templates
 	ruleTileAddressing(w, r, h)
-	// pixel ReadTiles: verbs (t.H, t.L, t.N), suffix iff t.W < 1<<t.H
-	prt := "(" + modPath + "/internal/feeder/pixelbt.tileReader).ReadTiles"
-	if sums, _, ok := explore(w, r, "C18.c", prt, 1, 1); ok {
-		fn := w.fn(prt)
-		tiles := paramN(fn, 0)
-		n := 0
-		for _, s := range sums {
-			for _, sp := range calls(s, "fmt.Sprintf") {
-				f0, _ := constInt(sp.Args[0])
-				va := sp.Args[1]
-				// which element of tiles do the verbs read?
-				var elem *Term
-				anySub(va, func(t *Term) bool {
-					if t.Kind == "indexaddr" && t.Args[0] == tiles {
-						elem = mk("deref", "", 0, nil, t)
-					}
-					return false
-				})
-				el := func(f string) *Term { return mk("field", f, 0, nil, elem) }
-				switch {
-				case strings.HasPrefix(unquote(f0), "tile/"):
-					n++
-					good := elem != nil && unquote(f0) == "tile/%d/%d/%03d" && va.Kind == "varargs" && len(va.Args) == 3 && va.Args[0] == el("H") && va.Args[1] == el("L") && va.Args[2] == el("N")
-					r.Check(good, "C18.c", prt+" | path verbs = (t.H, t.L, t.N)", w.pos(sp.Pos), "pixel tile path "+f0+" built from "+short(va.String()))
-				case strings.Contains(unquote(f0), ".p/"):
-					good := elem != nil && va.Kind == "varargs" && len(va.Args) == 1 && va.Args[0] == el("W")
-					// taken only when t.W < 1 << t.H
-					if good {
-						lim := mk("binop", "<<", 0, nil, mk("const", "1", 0, nil), el("H"))
-						good = false
-						for _, f := range s.Facts {
-							if f.Pos && f.Seq < sp.Seq && f.T.Kind == "binop" && f.T.Name == "<" && f.T.Args[0] == el("W") && f.T.Args[1].Kind == "binop" && f.T.Args[1].Name == "<<" && f.T.Args[1].Args[1].key == lim.Args[1].key {
-								good = true
-							}
-						}
-					}
-					r.Check(good, "C18.c", prt+" | partial suffix carries t.W and is taken iff t.W < 1<<t.H", w.pos(sp.Pos), "partial suffix "+f0+" built from "+short(va.String())+" or not guarded by t.W < 1<<t.H")
-				}
-			}
-		}
-		if n == 0 {
-			r.Undecided("C18.c", prt, "", "no path formats a tile path")
-		}
-	}
+	// pixel ReadTiles: tile/<H>/<L>/<NNN>[.p/<W>] of the requested tile, suffix iff t.W < 1<<t.H
+	rulePixelTileURLs(w, r)
 	// ---- C18.d PROVE-ARGS
 	for _, fpn := range []string{"sumdb", "pixelbt"} {
 		ff, okf := feederFuncs(w, r, "C18.d", fpn)
